@@ -13,6 +13,10 @@ from vlib import forkbaton, model, tlc
 SPEC = os.path.join(tlc.SPECS, "fork", "MC_ForkedReaders.tla")
 LINES = ["line %d %s" % (i, "é€\U0001d11e" * (i % 3) + "x" * (i * 7 % 11)) for i in range(12)]
 SCRIPTS = {"S3a": {0: [2], 1: [7], 2: [4]}, "S3b": {0: [2, 5], 1: [7, 1], 2: [4, 8]}, "S4": {0: [2], 1: [7], 2: [4], 3: [9]}}
+# how a process performs its accesses (the model only knows which line is wanted): plain indexing, iteration from the start
+# (the i-th next() wants line i), or open() / `with` on the inherited object before the first access
+STYLES = {"index": {}, "iter1": {1: "iter"}, "open2": {2: "open"}, "mixed": {1: "iter", 2: "open"}}
+ITER_SCRIPTS = {"S3a": {0: [2], 1: [0], 2: [4]}, "S3b": {0: [2, 5], 1: [0, 1], 2: [4, 8]}}
 _CTX = {}
 
 
@@ -55,9 +59,14 @@ def _setup(path_dir):
 
 
 def _job(args):
-    variant, sname, sched, d, noreopen = args
+    variant, sname, sched, d, noreopen = args[:5]
+    style = args[5] if len(args) > 5 else "index"
     f, path, offs = _CTX.get("setup") or _CTX.setdefault("setup", _setup(d))
-    scripts = SCRIPTS[sname]
+    how = dict(STYLES[style])
+    if variant == "map":
+        how = {p: ("open" if k == "iter" else k) for p, k in how.items()}     # a map file has no iteration
+    scripts = ITER_SCRIPTS[sname] if "iter" in how.values() else SCRIPTS[sname]
+    state = {}
 
     def make():
         if variant == "map":
@@ -74,6 +83,15 @@ def _job(args):
         return obj
 
     def access(obj, key):
+        me = forkbaton.GATE[0].p
+        kind = how.get(me, "index")
+        if kind == "open" and "opened" not in state:
+            state["opened"] = True
+            obj.open() if key % 2 else obj.__enter__()
+        if kind == "iter":
+            if "it" not in state:
+                state["it"] = iter(obj)
+            return next(state["it"])
         if variant == "map":
             return obj["k%d" % key].rstrip("\n")
         return obj[key]
@@ -84,7 +102,7 @@ def _job(args):
             got = r["values"][p][k]
             if got != ("ok", repr(LINES[key])):
                 bad.append({"proc": p, "access": k, "wanted_line": key, "got": got})
-    return {"variant": variant, "scripts": sname, "schedule": sched, "bad": bad, "completed": r["completed"],
+    return {"variant": variant, "scripts": sname, "style": style, "wanted": scripts, "schedule": sched, "bad": bad, "completed": r["completed"],
             "followed": r["followed"], "extra_steps": r["extra_steps"]}
 
 
@@ -115,6 +133,11 @@ def run(ctx):
     for variant, n in (("buffered", nb), ("map", nb if not quick else 200), ("mmap", 200 if quick else 3000)):
         jobs += [(variant, "S3b", s, d, False) for s in (s3b if n >= len(s3b) else rnd.sample(s3b, n))]
     jobs += [("buffered", "S4", s, d, False) for s in (rnd.sample(s4, 200) if quick else s4)]
+    # other ways of using the inherited object in a child: iteration, open() / with before the first access
+    for style in ("iter1", "open2", "mixed"):
+        for variant in ("buffered", "mmap", "map"):
+            jobs += [(variant, "S3a", s, d, False, style) for s in s3a]
+            jobs += [(variant, "S3b", s, d, False, style) for s in rnd.sample(s3b, 60 if quick else 2000)]
     negjobs = [("buffered", "S3a", s, d, True) for s in s3a]
     try:
         with ProcessPoolExecutor(max_workers=16) as ex:
@@ -132,12 +155,12 @@ def run(ctx):
     incomplete = 0
     for r in results:
         ctx.traces += 1
-        ctx.case((r["variant"], r["scripts"], tuple(r["schedule"])))
+        ctx.case((r["variant"], r["scripts"], r.get("style"), tuple(r["schedule"])))
         if not r["completed"]:
             incomplete += 1
         if r["bad"] or not r["completed"]:
             sig = {"kind": "fork-schedule", "variant": r["variant"]}
-            desc = "%s, scripts %s, schedule %s: %s" % (r["variant"], json.dumps(SCRIPTS[r["scripts"]]), r["schedule"],
+            desc = "%s (%s), wanted lines %s, schedule %s: %s" % (r["variant"], r.get("style"), json.dumps(r.get("wanted")), r["schedule"],
                                                           ("reads returned the wrong line: %s" % json.dumps(r["bad"][:3])) if r["bad"]
                                                           else "the processes did not finish within the watchdog")
             ctx.violation(sig, desc, {"engine": "forkbaton", **r})
